@@ -37,6 +37,8 @@ NamesOf(k, noise, i) ==
                   [] k = "comment"   -> <<>>
                   [] k = "directive" -> <<N("D", i)>>
                   [] k = "tmpl"      -> <<N("U", i)>>      \* a template that is handed an argument (a foreign type) it never mentions
+                  [] k = "group1"    -> <<N("GS", i)>>     \* a parenthesised group with a single entry
+                  [] k = "octal"     -> <<N("O", i)>>      \* a legacy octal literal (gofumpt spells it 0o... from go 1.13 on)
     IN IF noise = "two_on_one" THEN base \o <<N("X", i)>> ELSE base
 
 VARIABLES frags, mode, module
